@@ -11,7 +11,7 @@ EXPLANATION = ('Decides structural necessary conditions of C05 on the built MIR:
                'resource-limit constraint, (R05.3) multi-node chunks depend on worker-group identity, (R05.4) multi-node '
                'reservation typestate, (R05.5) reservation bookkeeping follows the task state in every reactor / mapping arm.')
 NOT_DECIDED = ['that the MILP solution respects the constraints (HiGHS is trusted)',
-               'arithmetic of WorkerResources / time arithmetic',
+               'arithmetic of WorkerResources / time arithmetic (decided only: the time stamp of a round is read after the last await, R05.7)',
                'global never-overbooked invariant over all histories (only the per-transition pairing is decided)']
 RELATED = {'C06': ['R06.2']}
 ASSUMPTIONS = ['per-connection FIFO between server and worker (mode "may" rows)']
